@@ -43,6 +43,38 @@ def prespawn_scripts(rng, tier):
         sf = len(lines)
         lines += gen_scripts.settle_lines(meta)
         out.append(("prespawn-%d" % i, lines, sf))
+    # the mapping is registered in a tick strictly before the one in which the entity becomes visible to the client
+    # (the marker arrives later, or the whitelist shows it later); that earlier tick may be quiet for the client
+    for i in range(n // 2):
+        nclients = rng.choice([1, 2])
+        white = rng.random() < 0.5
+        lines = ["cfg policy=%s auth=none track=0 nclients=%d timeout=10000" % ("white" if white else rng.choice(["all", "black"]), nclients), "start", "sframe 0 10"]
+        for c in range(nclients):
+            lines.append("connect %d 1200" % c)
+        c = rng.randrange(nclients)
+        lines += ["cop %d prespawn 0" % c, "cframe %d" % c]
+        if rng.random() < 0.5:
+            lines.append("sop spawn 1 1 0=%d" % rng.randrange(50))
+            if white:
+                lines.append("sop vis %d 1 1" % c)
+            lines.append("sframe 1 16")
+        lines.append("sop spawn 2 %d 0=%d 1=%d" % (1 if white else 0, rng.randrange(50), rng.randrange(50)))
+        if rng.random() < 0.5:
+            lines.append("sframe 1 16")
+        lines.append("sop map %d 2 0" % c)
+        for _ in range(rng.randrange(1, 3)):
+            lines.append("sframe 1 16")
+            if rng.random() < 0.3:
+                lines += ["deliver %d s2c 0 all" % c, "cframe %d" % c]
+        lines.append("sop vis %d 2 1" % c if white else "sop mark 2")
+        lines.append("sframe 1 16")
+        for _ in range(rng.randrange(0, 3)):
+            lines.append("sop mutate 2 1=%d" % rng.randrange(50))
+            lines.append("sframe %d 16" % rng.randrange(2))
+        meta = dict(connected=list(range(nclients)), events=False)
+        sf = len(lines)
+        lines += gen_scripts.settle_lines(meta)
+        out.append(("prespawn-early-%d" % i, lines, sf))
     return out
 
 
